@@ -300,3 +300,326 @@ class AddIsoHybridMacWithoutEfi(AddIsoHybrid):
     covers = ('raise:PyCdlibInvalidInput',)
     efi = False
     mac = True
+
+
+# ---------------------------------------------------------------------------------------------
+# GPT / EFI / Mac
+# ---------------------------------------------------------------------------------------------
+GPTP = 'pycdlib.isohybrid.GPTPartHeader'
+GPTH = 'pycdlib.isohybrid.GPTHeader'
+GPTC = 'pycdlib.isohybrid.GPT'
+
+
+def gpt_obj(c, prefix, is_primary, nparts):
+    hdr = c.obj(GPTH, _initialized=True, current_lba=c.int(prefix + 'cur', 0, 1 << 40), backup_lba=c.int(prefix + 'bak', 0, 1 << 40),
+                first_usable_lba=34, last_usable_lba=c.int(prefix + 'last', 0, 1 << 40), partition_entries_lba=c.int(prefix + 'pel', 0, 1 << 40),
+                num_parts=128, size_of_partition_entries=128)
+    parts = [c.obj(GPTP, _initialized=True, first_lba=c.int('%sp%d_first' % (prefix, i), 0, 1 << 40), last_lba=c.int('%sp%d_last' % (prefix, i), 0, 1 << 40))
+             for i in range(nparts)]
+    return c.obj(GPTC, _initialized=True, is_primary=is_primary, header=hdr, parts=parts, apm_parts=[])
+
+
+@contract
+class UpdateEfi(Base):
+    """C12/efi: after update_efi(extent, count, size): MBR EFI entry = (extent, count); in BOTH GPTs partition 1 covers the ISO
+    [0, size/512-1], partition 2 delimits exactly the El Torito EFI image [4*extent, 4*extent+count-1]; the headers mirror each other
+    (primary at LBA 1, backup at the last 512-byte sector of the cylinder-padded image) and agree on the last usable LBA."""
+    target = IH + '.update_efi'
+    heads = 64
+    sectors = 32
+    mac = False
+
+    def setup(self, c):
+        a = c.a
+        a.cyl = self.heads * self.sectors * 512
+        a.size = c.int('iso_size', 2048 * 64, MAX_ISO // 4)
+        k = c.int('iso_sectors', 64, MAX_ISO // 2048)
+        c.assume(a.size == 2048 * k)
+        a.extent = c.int('extent', 0, 1 << 30)
+        a.count = c.int('count', 0, 65535)
+        n = 3 if self.mac else 2
+        a.pg = gpt_obj(c, 'p_', True, n)
+        a.sg = gpt_obj(c, 's_', False, n)
+        a.self = c.obj(IH, _initialized=True, efi=True, mac=self.mac, geometry_heads=self.heads, geometry_sectors=self.sectors,
+                       primary_gpt=a.pg, secondary_gpt=a.sg, efi_lba=0, efi_count=0)
+        a.ncyl, a.pad = spec_padding(c, a.size, a.cyl)
+        a.total512 = c.divmod(a.size + a.pad, 512)[0]   # 512-byte sectors of the cylinder-padded image
+        a.iso512 = 4 * k                                   # 512-byte sectors of the ISO itself
+        return Call([a.extent, a.count, a.size], self_obj=a.self)
+
+    def post(self, c, a, out):
+        s = a.self
+        last = a.total512 - 1
+        cl = {'mbr-efi-entry': And(s.efi_lba == a.extent, s.efi_count == a.count)}
+        for name, g in (('primary', s.primary_gpt), ('backup', s.secondary_gpt)):
+            cl[name + '-part1-covers-iso'] = g.parts[0].last_lba == a.iso512 - 1
+            cl[name + '-part2-is-efi-image'] = And(g.parts[1].first_lba == 4 * a.extent, g.parts[1].last_lba == 4 * a.extent + a.count - 1)
+            cl[name + '-last-usable'] = g.header.last_usable_lba == a.total512 - 34
+        cl['headers-mirror'] = And(s.primary_gpt.header.current_lba == 1, s.primary_gpt.header.backup_lba == last,
+                                   s.secondary_gpt.header.current_lba == last, s.secondary_gpt.header.backup_lba == 1)
+        cl['backup-entries-before-backup-header'] = s.secondary_gpt.header.partition_entries_lba == last - 32
+        return cl
+
+
+@contract
+class UpdateMac(Base):
+    """C12/mac: update_mac(extent, count): MBR Mac entry = (extent, count) and partition 3 of BOTH GPTs delimits exactly the
+    second EFI (Mac) image [4*extent, 4*extent+count-1] - the backup must mirror the primary."""
+    target = IH + '.update_mac'
+
+    def setup(self, c):
+        a = c.a
+        a.extent = c.int('extent', 0, 1 << 30)
+        a.count = c.int('count', 0, 65535)
+        a.pg = gpt_obj(c, 'p_', True, 3)
+        a.sg = gpt_obj(c, 's_', False, 3)
+        a.self = c.obj(IH, _initialized=True, efi=True, mac=True, primary_gpt=a.pg, secondary_gpt=a.sg, mac_lba=0, mac_count=0)
+        return Call([a.extent, a.count], self_obj=a.self)
+
+    def post(self, c, a, out):
+        s = a.self
+        cl = {'mbr-mac-entry': And(s.mac_lba == a.extent, s.mac_count == a.count)}
+        for name, g in (('primary', s.primary_gpt), ('backup', s.secondary_gpt)):
+            cl[name + '-part3-is-mac-image'] = And(g.parts[2].first_lba == 4 * a.extent, g.parts[2].last_lba == 4 * a.extent + a.count - 1)
+        return cl
+
+
+@contract
+class ReshuffleEltoritoEntry(Base):
+    """C12/efi-mac + C11/pointer (fragment of PyCdlib._reshuffle_extents: body of `for enc in enc_to_update`, free variables as
+    parameters): the hybrid structures receive the sector count OF THE ENTRY BEING PLACED, and the MBR boot address is set from
+    the platform-0 entry."""
+    target = 'pycdlib.pycdlib.PyCdlib._reshuffle_extents'
+    label = 'pycdlib.PyCdlib._reshuffle_extents<for enc in enc_to_update>'
+    platform = 0xef
+    seen = 0
+
+    def setup(self, c):
+        a = c.a
+        a.extent = c.int('current_extent', 32, 1 << 28)
+        a.count = c.int('this_entry_sectors', 1, 65535)
+        a.other = c.int('other_entry_sectors', 1, 65535)
+        a.space = c.int('space_size', 64, 1 << 28)
+        a.size = 2048 * a.space
+        a.pg = gpt_obj(c, 'p_', True, 3)
+        a.sg = gpt_obj(c, 's_', False, 3)
+        a.hyb = c.obj(IH, _initialized=True, efi=True, mac=True, geometry_heads=64, geometry_sectors=32, primary_gpt=a.pg, secondary_gpt=a.sg,
+                      efi_lba=c.int('old_efi_lba', 0, 1 << 28), efi_count=c.int('old_efi_count', 0, 65535), mac_lba=c.int('old_mac_lba', 0, 1 << 28),
+                      mac_count=c.int('old_mac_count', 0, 65535), rba=c.int('old_rba', 0, (1 << 32) - 1))
+        ino = c.obj('pycdlib.inode.Inode', _initialized=True, linked_records=[], data_length=2048, new_extent_loc=-1, num_udf=0)
+        a.this_entry = c.obj('pycdlib.eltorito.EltoritoEntry', _initialized=True, sector_count=a.count, inode=ino, load_rba=0)
+        a.other_entry = c.obj('pycdlib.eltorito.EltoritoEntry', _initialized=True, sector_count=a.other, inode=ino, load_rba=0)
+        pvd = c.obj('pycdlib.headervd.PrimaryOrSupplementaryVD', _initialized=True, space_size=a.space)
+        a.self = c.obj('pycdlib.pycdlib.PyCdlib', _initialized=True, isohybrid_mbr=a.hyb, pvd=pvd, logical_block_size=2048, _has_udf=False, udf_anchors=[])
+        if c.symbolic:
+            enc = c.obj('pycdlib.inode.Inode')  # any attribute bag
+            enc.fields.clear()
+            enc.fields.update(entry=a.this_entry, platform_id=self.platform, name=b'BOOT.;1')
+        else:
+            class Enc:
+                pass
+            enc = Enc()
+            enc.entry, enc.platform_id, enc.name = a.this_entry, self.platform, b'BOOT.;1'
+        # `entry` is whatever the enclosing function last bound: the contract must hold for any other entry
+        env = dict(self=a.self, enc=enc, entry=a.other_entry, current_extent=a.extent, part_start=0, linked_inodes=set(),
+                   num_seen_efi=self.seen)
+        return Call([], fn=Fragment(self.target, {'for_iter': 'enc_to_update'}, env))
+
+    def post(self, c, a, out):
+        h = a.hyb
+        cl = {'entry-placed-at-current-extent': a.this_entry.load_rba == a.extent}
+        if self.platform == 0xef and self.seen == 0:
+            cl['efi-gets-this-entry-count'] = And(h.efi_lba == a.extent, h.efi_count == a.count,
+                                                  h.primary_gpt.parts[1].last_lba == 4 * a.extent + a.count - 1)
+        elif self.platform == 0xef and self.seen == 1:
+            cl['mac-gets-this-entry-count'] = And(h.mac_lba == a.extent, h.mac_count == a.count,
+                                                  h.primary_gpt.parts[2].last_lba == 4 * a.extent + a.count - 1)
+        elif self.platform == 0:
+            cl['rba-is-4x-boot-sector'] = h.rba == 4 * a.extent
+        return cl
+
+
+def _obs_reshuffle(self, c, a, out):
+    h = a.hyb
+    return {'kind': out.kind, 'exc': out.exc, 'efi': [h.efi_lba, h.efi_count], 'mac': [h.mac_lba, h.mac_count], 'rba': h.rba,
+            'load_rba': a.this_entry.load_rba, 'p1': [h.primary_gpt.parts[1].first_lba, h.primary_gpt.parts[1].last_lba],
+            'p2': [h.primary_gpt.parts[2].first_lba, h.primary_gpt.parts[2].last_lba]}
+
+
+ReshuffleEltoritoEntry.observe = _obs_reshuffle
+
+
+# ---------------------------------------------------------------------------------------------
+# CRC-32
+# ---------------------------------------------------------------------------------------------
+def crc32_step_spec(crc, x):
+    """one byte of the reflected CRC-32 (polynomial 0xEDB88320), bit by bit - ITU-T V.42 / IEEE 802.3, no table"""
+    c = crc ^ x
+    for _ in range(8):
+        c = If((c & 1) != 0, sx.LShR(c, 1) ^ 0xEDB88320, sx.LShR(c, 1))
+    return c
+
+
+def crc32_spec(data):
+    crc = 0xffffffff
+    for x in data:
+        crc = crc32_step_spec(crc, x)
+    return crc ^ 0xffffffff
+
+
+@contract
+class Crc32Step(Base):
+    """C12/crc step lemma: for EVERY 32-bit state and byte, the table-driven loop body of isohybrid.crc32 equals the bit-wise
+    CRC-32 step.  With crc32(b'') = 0 (Crc32Whole) this gives crc32 = CRC-32 for every input length by induction on the loop."""
+    target = 'pycdlib.isohybrid.crc32'
+    label = 'isohybrid.crc32<loop body>'
+
+    def setup(self, c):
+        a = c.a
+        a.crc = c.bv('crc', 32)
+        a.x = c.bv('x', 8)
+        return Call([], fn=Fragment(self.target, {'for_target': 'x'}, dict(crc=a.crc, x=a.x)))
+
+    def post(self, c, a, out):
+        return {'table-step-equals-bitwise-step': Eq(out.result['crc'], crc32_step_spec(a.crc, a.x))}
+
+    def observe(self, c, a, out):
+        return {'kind': out.kind, 'crc': out.result['crc'] if out.kind == 'return' else None}
+
+
+@contract
+class Crc32Whole(Base):
+    """init/finalisation of crc32 and agreement with the specification on symbolic strings of a fixed length n"""
+    target = 'pycdlib.isohybrid.crc32'
+    n = 0
+
+    def setup(self, c):
+        a = c.a
+        a.items = [c.bv('d%d' % i, 8) for i in range(self.n)]
+        a.data = V.mk_bytes(a.items)
+        return Call([a.data])
+
+    def post(self, c, a, out):
+        return {'equals-crc32-spec': Eq(out.result, crc32_spec(a.items))}
+
+
+def crc32_hook(it, fv, args, kwargs):
+    """callee contract of isohybrid.crc32 at its call sites: a pure function of its argument with a 32-bit result
+    (what it computes is Crc32Step/Crc32Whole's business).  Calls are recorded so that callers' post-conditions can say
+    WHICH bytes were checksummed."""
+    data = args[0]
+    items = V.items_of(data)
+    key = tuple(x.get_id() if sx.is_sym(x) else ('c', x) for x in items)
+    calls = it.ctx.ghost.setdefault('crc_calls', {})
+    if key not in calls:
+        calls[key] = (items, it.ctx.fresh_int('crc32', 0, (1 << 32) - 1))
+    return calls[key][1]
+
+
+def crc_of(c, items):
+    """CRC-32 of a byte list: the recorded callee result (symbolic) or zlib.crc32 (concrete replay)"""
+    if not c.symbolic or all(not sx.is_sym(x) for x in items) and not getattr(c, 'p', None):
+        import zlib
+        return zlib.crc32(bytes(items)) & 0xffffffff
+    calls = c.p.ghost.get('crc_calls', {})
+    key = tuple(x.get_id() if sx.is_sym(x) else ('c', x) for x in items)
+    if key in calls:
+        return calls[key][1]
+    # same length call with provably equal bytes
+    for k, (its, h) in calls.items():
+        if len(its) == len(items):
+            return If(And(*[Eq(p, q) for p, q in zip(its, items)]), h, -1)
+    return -1  # nobody checksummed these bytes
+
+
+class GPTBase(Base):
+    mac = False
+    hooks = {'pycdlib.isohybrid.crc32': crc32_hook}
+
+    def make_gpt(self, c, is_primary, prefix):
+        g = c.new(GPTC, is_primary)
+        c.call(GPTC + '.new', g, self.mac)
+        h = g.header
+        h.current_lba = c.int(prefix + 'cur', 0, (1 << 40))
+        h.backup_lba = c.int(prefix + 'bak', 0, (1 << 40))
+        h.last_usable_lba = c.int(prefix + 'last', 0, (1 << 40))
+        if not is_primary:
+            h.partition_entries_lba = c.int(prefix + 'pel', 0, (1 << 40))
+        for i, p in enumerate(g.parts):
+            p.first_lba = c.int('%sp%d_first' % (prefix, i), 0, 1 << 40)
+            p.last_lba = c.int('%sp%d_last' % (prefix, i), 0, 1 << 40)
+        return g
+
+    def header_clauses(self, c, hdr, array, g, tag):
+        it = V.items_of(hdr)
+        zeroed = it[:16] + [0, 0, 0, 0] + it[20:92]
+        h = g.header
+        le64 = lambda o: sx.le_int(it[o:o + 8])  # noqa
+        return {
+            tag + 'signature-revision-size': Eq(V.mk_bytes(it[:16]), b'EFI PART\x00\x00\x01\x00\x5c\x00\x00\x00'),
+            tag + 'header-crc-valid': le32(it, 16) == crc_of(c, zeroed),
+            tag + 'array-crc-covers-declared-array': And(le32(it, 80) == 128, le32(it, 84) == 128, le32(it, 88) == crc_of(c, V.items_of(array))),
+            tag + 'lbas': And(le64(24) == h.current_lba, le64(32) == h.backup_lba, le64(40) == h.first_usable_lba, le64(48) == h.last_usable_lba,
+                              le64(72) == h.partition_entries_lba),
+            tag + 'reserved-zero': And(le32(it, 20) == 0, Eq(V.mk_bytes(it[92:512]), b'\x00' * 420)),
+        }
+
+    def array_clauses(self, c, array, g, tag):
+        it = V.items_of(array)
+        cl = {}
+        for i, p in enumerate(g.parts):
+            o = 128 * i
+            cl['%spart%d-lbas' % (tag, i + 1)] = And(sx.le_int(it[o + 32:o + 40]) == p.first_lba, sx.le_int(it[o + 40:o + 48]) == p.last_lba)
+        n = len(g.parts)
+        cl[tag + 'unused-entries-zero'] = Eq(V.mk_bytes(it[128 * n:]), b'\x00' * (16384 - 128 * n))
+        return cl
+
+
+@contract
+class GPTRecordPrimary(GPTBase):
+    """C12/crc: primary GPT = header sector (valid header CRC, partition-array CRC over the 128x128-byte array it declares)
+    followed by the array; every partition entry carries its LBAs."""
+    target = GPTC + '.record'
+    label = 'isohybrid.GPT.record<primary>'
+    crosscheck = False
+
+    def setup(self, c):
+        a = c.a
+        a.g = self.make_gpt(c, True, 'p_')
+        return Call([], self_obj=a.g)
+
+    def post(self, c, a, out):
+        r = out.result
+        n = 512 + 16384 + (((3 * 4 + 2) * 512) if self.mac else 0)  # header, [APM hole: 14 sectors], array
+        if len(r) != n:
+            return {'length': False}
+        hdr = r[0:512]
+        array = r[len(r) - 16384:]
+        cl = {'length': True}
+        cl.update(self.header_clauses(c, hdr, array, a.g, ''))
+        cl.update(self.array_clauses(c, array, a.g, ''))
+        return cl
+
+
+@contract
+class GPTRecordSecondary(GPTBase):
+    """backup GPT = the 128x128-byte array followed by the header sector"""
+    target = GPTC + '.record'
+    label = 'isohybrid.GPT.record<backup>'
+    crosscheck = False
+
+    def setup(self, c):
+        a = c.a
+        a.g = self.make_gpt(c, False, 's_')
+        return Call([], self_obj=a.g)
+
+    def post(self, c, a, out):
+        r = out.result
+        if len(r) != 512 + 16384:
+            return {'length': False}
+        array = r[0:16384]
+        hdr = r[16384:]
+        cl = {'length': True}
+        cl.update(self.header_clauses(c, hdr, array, a.g, ''))
+        cl.update(self.array_clauses(c, array, a.g, ''))
+        return cl
